@@ -1,30 +1,8 @@
-(* C14 — transpose_vec (the literal in-place swap loop): correct on square matrices of every size and on single-column
-   matrices.  (It is NOT correct on other shapes: Findings/C14_transpose.v.) *)
+(* C14 — transpose_vec (out-of-place double loop): the matrix transpose for EVERY shape; when the length is not a multiple of
+   num_cols the trailing len mod num_cols elements are dropped; num_cols = 0 returns the input unchanged. *)
 From Coq Require Import List Arith Bool Lia.
 From SpdVerif Require Import Base.GridOps Gen.Grid Model.Grid.
 Import ListNotations.
-
-Lemma upd_length {A} (l : list A) i x : length (upd l i x) = length l.
-Proof. revert i; induction l as [|h t IH]; intros [|i]; cbn; auto. Qed.
-
-Lemma nth_error_upd {A} (l : list A) i x k : i < length l ->
-  nth_error (upd l i x) k = if (k =? i)%nat then Some x else nth_error l k.
-Proof.
-  revert i k; induction l as [|h t IH]; intros i k Hi; cbn in Hi; [lia|].
-  destruct i as [|i], k as [|k]; cbn; try reflexivity. apply IH. lia.
-Qed.
-
-Lemma swap_vec_spec {A} (v : list A) i j : i < length v -> j < length v ->
-  exists w, swap_vec v i j = Ok w /\ length w = length v /\
-    forall k, nth_error w k = if (k =? j)%nat then nth_error v i else if (k =? i)%nat then nth_error v j else nth_error v k.
-Proof.
-  intros Hi Hj. unfold swap_vec.
-  destruct (nth_error v i) as [a|] eqn:Ea; [|apply nth_error_None in Ea; lia].
-  destruct (nth_error v j) as [b|] eqn:Eb; [|apply nth_error_None in Eb; lia].
-  eexists; split; [reflexivity|]. split; [rewrite !upd_length; reflexivity|].
-  intros k. rewrite nth_error_upd by (rewrite upd_length; exact Hj).
-  destruct (k =? j)%nat; [reflexivity|]. rewrite nth_error_upd by exact Hi. destruct (k =? i)%nat; reflexivity.
-Qed.
 
 Lemma for_loop_inv {St} (I : nat -> St -> Prop) body : forall cnt lo s, I lo s ->
   (forall k s, lo <= k < lo + cnt -> I k s -> exists s', body k s = Ok s' /\ I (S k) s') ->
@@ -37,141 +15,97 @@ Proof.
     exists s2. split; [exact E2|]. replace (lo + S cnt) with (S lo + cnt) by lia. exact I2.
 Qed.
 
-Lemma div_ceil_mul a b : 0 < b -> div_ceil (a * b) b = a.
-Proof. intros H. unfold div_ceil. rewrite Nat.mod_mul by lia. cbn. apply Nat.div_mul. lia. Qed.
-
-Lemma rowcol_inj n i j r c : j < n -> c < n -> i * n + j = r * n + c -> i = r /\ j = c.
+Lemma nth_error_firstn_lt {A} (l : list A) n i : i < n -> nth_error (firstn n l) i = nth_error l i.
 Proof.
-  intros Hj Hc E.
-  assert (i = r).
-  { assert (H1 : (i * n + j) / n = i) by (rewrite Nat.div_add_l by lia; rewrite Nat.div_small by lia; lia).
-    assert (H2 : (r * n + c) / n = r) by (rewrite Nat.div_add_l by lia; rewrite Nat.div_small by lia; lia).
-    rewrite E in H1. lia. }
-  subst. split; [reflexivity | lia].
+  revert n i; induction l as [|h t IH]; intros n i H.
+  - rewrite firstn_nil. reflexivity.
+  - destruct n as [|n]; [lia|]. destruct i as [|i]; cbn; [reflexivity|]. apply IH. lia.
 Qed.
 
-(* has the pair {i, j} been exchanged when the loop nest is about to run (row r, col c)? *)
-Definition swapped (r c i j : nat) : bool :=
-  (Nat.min i j <? r)%nat || ((Nat.min i j =? r)%nat && (Nat.max i j <? c)%nat).
-Definition src (n r c i j : nat) : nat := if swapped r c i j then j * n + i else i * n + j.
-
-Definition Inv {A} (n : nat) (v : list A) (r c : nat) (w : list A) : Prop :=
-  length w = n * n /\ forall i j, i < n -> j < n -> nth_error w (i * n + j) = nth_error v (src n r c i j).
-
-Lemma src_start n i j : src n 0 1 i j = i * n + j.
+Lemma divmod_rc R c r : r < R -> (c * R + r) / R = c /\ (c * R + r) mod R = r.
 Proof.
-  unfold src, swapped.
-  destruct (Nat.ltb_spec (Nat.min i j) 0), (Nat.eqb_spec (Nat.min i j) 0), (Nat.ltb_spec (Nat.max i j) 1); cbn; try reflexivity; try lia;
-    try (assert (i = 0) by lia; assert (j = 0) by lia; subst; reflexivity).
+  intros H. split.
+  - rewrite Nat.div_add_l by lia. rewrite Nat.div_small by exact H. lia.
+  - rewrite Nat.add_comm, Nat.mod_add by lia. apply Nat.mod_small; exact H.
 Qed.
 
-Lemma src_next_row n r i j : i < n -> j < n -> src n r n i j = src n (S r) (S (S r)) i j.
-Proof.
-  intros Hi Hj. unfold src. destruct (Nat.eq_dec i j) as [->|Hne].
-  - destruct (swapped r n j j), (swapped (S r) (S (S r)) j j); reflexivity.
-  - assert (E : swapped r n i j = swapped (S r) (S (S r)) i j).
-    { unfold swapped.
-      destruct (Nat.ltb_spec (Nat.min i j) r), (Nat.eqb_spec (Nat.min i j) r), (Nat.ltb_spec (Nat.max i j) n),
-        (Nat.ltb_spec (Nat.min i j) (S r)), (Nat.eqb_spec (Nat.min i j) (S r)), (Nat.ltb_spec (Nat.max i j) (S (S r)));
-        cbn; try reflexivity; lia. }
-    rewrite E. reflexivity.
-Qed.
+Section Transpose.
+Context {A : Type} (v : list A) (cols : nat).
+Hypothesis Hcols : 1 <= cols.
+Let R := length v / cols.
 
-Lemma src_end n i j : i < n -> j < n -> src n n (S n) i j = j * n + i.
-Proof.
-  intros Hi Hj. unfold src, swapped. destruct (Nat.ltb_spec (Nat.min i j) n); [reflexivity | lia].
-Qed.
+(* the accumulator after k pushes: slot k holds v[(k mod R) * cols + k / R] *)
+Let P (acc : list A) : Prop := forall k, k < length acc -> nth_error acc k = nth_error v ((k mod R) * cols + k / R).
 
-Section Square.
-Context {A : Type} (n : nat) (v : list A).
-Hypothesis Hn : 1 <= n.
-Hypothesis Hlen : length v = n * n.
-
-Let body_inner (row : nat) := fun col (w : list A) =>
-  if transpose_swap_pre (length v) n row col
-  then swap_vec w (fst (transpose_swap_indices (length v) n row col)) (snd (transpose_swap_indices (length v) n row col))
+Let body_inner (outer : nat) := fun inner (acc : list A) =>
+  if transpose_read_pre (length v) cols outer inner
+  then match nth_error v (transpose_read_index (length v) cols outer inner) with
+       | Some x => Ok (acc ++ [x])
+       | None => Panic
+       end
   else Panic.
 
-Lemma inner_step r c w : r < c -> c < n -> Inv n v r c w -> exists w', body_inner r c w = Ok w' /\ Inv n v r (S c) w'.
+Lemma R_cols_le : R * cols <= length v.
+Proof. unfold R. rewrite Nat.mul_comm. apply Nat.mul_div_le. lia. Qed.
+
+Lemma inner_step c r acc : c < cols -> r < R -> length acc = c * R + r -> P acc ->
+  exists acc', body_inner c r acc = Ok acc' /\ length acc' = c * R + S r /\ P acc'.
 Proof.
-  intros Hrc Hcn [HL HI]. unfold body_inner, transpose_swap_pre, transpose_swap_indices. cbn [fst snd].
-  rewrite (proj2 (Nat.ltb_lt r n)) by lia. rewrite (proj2 (Nat.ltb_lt c n)) by lia. cbn [andb].
-  destruct (swap_vec_spec w (c * n + r) (r * n + c)) as (w' & E & HL' & Hw'); [nia | nia |].
-  exists w'. split; [exact E|]. split; [lia|].
-  intros i j Hi Hj. rewrite Hw'.
-  destruct (Nat.eqb_spec (i * n + j) (r * n + c)) as [E1|NE1].
-  - apply rowcol_inj in E1; [|lia|lia]. destruct E1 as [-> ->].
-    rewrite (HI c r) by lia. f_equal. unfold src, swapped.
-    replace (Nat.min c r) with r by lia. replace (Nat.max c r) with c by lia.
-    replace (Nat.min r c) with r by lia. replace (Nat.max r c) with c by lia.
-    rewrite Nat.ltb_irrefl, Nat.eqb_refl, (Nat.ltb_irrefl c), (proj2 (Nat.ltb_lt c (S c))) by lia. reflexivity.
-  - destruct (Nat.eqb_spec (i * n + j) (c * n + r)) as [E2|NE2].
-    + apply rowcol_inj in E2; [|lia|lia]. destruct E2 as [-> ->].
-      rewrite (HI r c) by lia. f_equal. unfold src, swapped.
-      replace (Nat.min c r) with r by lia. replace (Nat.max c r) with c by lia.
-      replace (Nat.min r c) with r by lia. replace (Nat.max r c) with c by lia.
-      rewrite Nat.ltb_irrefl, Nat.eqb_refl, (Nat.ltb_irrefl c), (proj2 (Nat.ltb_lt c (S c))) by lia. reflexivity.
-    + rewrite (HI i j) by assumption. f_equal.
-      assert (H1 : ~ (i = r /\ j = c)) by (intros [-> ->]; apply NE1; reflexivity).
-      assert (H2 : ~ (i = c /\ j = r)) by (intros [-> ->]; apply NE2; reflexivity).
-      assert (Esw : swapped r (S c) i j = swapped r c i j).
-      { unfold swapped.
-        destruct (Nat.ltb_spec (Nat.min i j) r), (Nat.eqb_spec (Nat.min i j) r), (Nat.ltb_spec (Nat.max i j) c),
-          (Nat.ltb_spec (Nat.max i j) (S c)); cbn; try reflexivity; lia. }
-      unfold src. rewrite Esw. reflexivity.
+  intros Hc Hr HL HP. unfold body_inner, transpose_read_pre, transpose_read_index.
+  rewrite (proj2 (Nat.ltb_lt c cols)) by exact Hc.
+  pose proof R_cols_le as HRc.
+  destruct (nth_error v (r * cols + c)) as [x|] eqn:Ex; [|apply nth_error_None in Ex; nia].
+  exists (acc ++ [x]). split; [reflexivity|]. split; [rewrite app_length; cbn; lia|].
+  intros k Hk. rewrite app_length in Hk; cbn in Hk.
+  destruct (Nat.eq_dec k (length acc)) as [->|Hne].
+  - rewrite nth_error_app2 by lia. rewrite Nat.sub_diag. cbn [nth_error].
+    rewrite HL. destruct (divmod_rc R c r Hr) as [-> ->]. symmetry; exact Ex.
+  - rewrite nth_error_app1 by lia. apply HP. lia.
 Qed.
 
-Lemma outer_step r w : r < n -> Inv n v r (S r) w ->
-  exists w', for_range (transpose_inner_range (length v) n r) (body_inner r) w = Ok w' /\ Inv n v (S r) (S (S r)) w'.
+Lemma outer_step c acc : c < cols -> length acc = c * R -> P acc ->
+  exists acc', for_range (transpose_inner_range (length v) cols c) (body_inner c) acc = Ok acc' /\ length acc' = S c * R /\ P acc'.
 Proof.
-  intros Hr HI. unfold for_range, transpose_inner_range. cbn [fst snd].
-  destruct (for_loop_inv (fun c w => Inv n v r c w) (body_inner r) (n - (r + 1)) (r + 1) w) as (w' & E & HI').
-  - replace (r + 1) with (S r) by lia. exact HI.
-  - intros k s Hk Hs. apply inner_step; [lia | lia | exact Hs].
-  - exists w'. split; [exact E|]. replace (r + 1 + (n - (r + 1))) with n in HI' by lia.
-    destruct HI' as [HL HI']. split; [exact HL|]. intros i j Hi Hj. rewrite (HI' i j Hi Hj).
-    f_equal. apply src_next_row; assumption.
+  intros Hc HL HP. unfold for_range, transpose_inner_range. cbn [fst snd]. fold R. rewrite Nat.sub_0_r.
+  destruct (for_loop_inv (fun r acc => length acc = c * R + r /\ P acc) (body_inner c) R 0 acc) as (acc' & E & HL' & HP').
+  - split; [lia | exact HP].
+  - intros k s Hk [Hs1 Hs2]. destruct (inner_step c k s Hc ltac:(lia) Hs1 Hs2) as (s' & E & L' & P').
+    exists s'. split; [exact E|]. split; [lia | exact P'].
+  - exists acc'. split; [exact E|]. split; [cbn [plus] in HL'; lia | exact HP'].
 Qed.
 
-Theorem transpose_square : exists w, transpose_vec v n = Ok w /\ is_transpose n n v w.
+Theorem transpose_general :
+  exists w, transpose_vec v cols = Ok w /\ is_transpose R cols (firstn (R * cols) v) w.
 Proof.
-  unfold transpose_vec. destruct (Nat.eqb_spec n 0) as [E0|_]; [lia|].
-  unfold for_range, transpose_outer_range. cbn [fst snd]. rewrite Hlen, div_ceil_mul by lia. rewrite Nat.sub_0_r.
-  rewrite <- Hlen.
-  destruct (for_loop_inv (fun r w => Inv n v r (S r) w)
-              (fun row w => for_range (transpose_inner_range (length v) n row) (body_inner row) w) n 0 v) as (w & E & HI).
-  - split; [exact Hlen|]. intros i j Hi Hj. rewrite src_start. reflexivity.
-  - intros k s Hk Hs. apply outer_step; [lia | exact Hs].
-  - exists w. split; [exact E|]. cbn [plus] in HI. destruct HI as [HL HI]. split; [exact HL|].
-    intros r c Hr Hc. rewrite (HI c r Hc Hr). rewrite src_end by assumption. reflexivity.
+  unfold transpose_vec, transpose_early_return. destruct (Nat.eqb_spec cols 0) as [E0|_]; [lia|].
+  unfold for_range at 1, transpose_outer_range. cbn [fst snd]. rewrite Nat.sub_0_r.
+  destruct (for_loop_inv (fun c acc => length acc = c * R /\ P acc)
+              (fun outer acc => for_range (transpose_inner_range (length v) cols outer) (body_inner outer) acc) cols 0 []) as (w & E & HL & HP).
+  - split; [reflexivity|]. intros k Hk. cbn in Hk. lia.
+  - intros k s Hk [Hs1 Hs2]. destruct (outer_step k s ltac:(lia) Hs1 Hs2) as (s' & E & L' & P').
+    exists s'. split; [exact E|]. split; assumption.
+  - exists w. split; [exact E|]. cbn [plus] in HL. split; [lia|].
+    intros r c Hr Hc. rewrite HP by nia. destruct (divmod_rc R c r Hr) as [-> ->].
+    symmetry. apply nth_error_firstn_lt. nia.
 Qed.
-End Square.
+End Transpose.
 
-(* a single-column matrix (rows x 1): the loop nest does nothing, and the flat layout of the transpose is the same *)
-Theorem transpose_column {A} (rows : nat) (v : list A) : length v = rows * 1 ->
-  exists w, transpose_vec v 1 = Ok w /\ is_transpose rows 1 v w.
-Proof.
-  intros Hlen. unfold transpose_vec. cbn [Nat.eqb].
-  unfold for_range at 1, transpose_outer_range. cbn [fst snd].
-  destruct (for_loop_inv (fun _ w => w = v)
-              (fun row w => for_range (transpose_inner_range (length v) 1 row)
-                 (fun col w => if transpose_swap_pre (length v) 1 row col
-                               then swap_vec w (fst (transpose_swap_indices (length v) 1 row col)) (snd (transpose_swap_indices (length v) 1 row col))
-                               else Panic) w)
-              (div_ceil (length v) 1 - 0) 0 v) as (w & E & HI).
-  - reflexivity.
-  - intros k s Hk ->. exists v. split; [|reflexivity].
-    unfold for_range, transpose_inner_range. cbn [fst snd]. replace (1 - (k + 1)) with 0 by lia. reflexivity.
-  - exists w. split; [exact E|]. subst w. split; [lia|].
-    intros r c Hr Hc. assert (c = 0) by lia. subst c. f_equal. lia.
-Qed.
-
-(* the shapes on which the loop nest is the matrix transpose *)
-Theorem transpose_correct {A} (rows cols : nat) (v : list A) :
-  length v = rows * cols -> 1 <= cols -> rows = cols \/ cols = 1 ->
+(* every rows x cols matrix, including rows = 0 and cols = 0 (then v = [] and the result is []) *)
+Theorem transpose_correct {A} (rows cols : nat) (v : list A) : length v = rows * cols ->
   exists w, transpose_vec v cols = Ok w /\ is_transpose rows cols v w.
 Proof.
-  intros Hlen Hc [->| ->].
-  - apply transpose_square; assumption.
-  - apply transpose_column; assumption.
+  intros Hlen. destruct (Nat.eq_dec cols 0) as [->|Hc].
+  - exists v. split; [reflexivity|]. split; [exact Hlen|]. intros r c _ Hc0. lia.
+  - destruct (transpose_general v cols ltac:(lia)) as (w & E & HT).
+    assert (HR : length v / cols = rows) by (rewrite Hlen; apply Nat.div_mul; exact Hc).
+    rewrite HR in HT. rewrite <- Hlen, firstn_all in HT. exists w. split; assumption.
 Qed.
+
+(* what the code does outside the matrix case *)
+Theorem transpose_zero_cols {A} (v : list A) : transpose_vec v 0 = Ok v.
+Proof. reflexivity. Qed.
+
+Theorem transpose_ragged {A} (v : list A) (cols : nat) : 1 <= cols ->
+  exists w, transpose_vec v cols = Ok w /\
+    is_transpose (length v / cols) cols (firstn (length v / cols * cols) v) w.
+Proof. intros H. apply transpose_general; exact H. Qed.
